@@ -108,3 +108,11 @@ TABLE = {"C02": c02, "C03": c03, "C04": c04, "C05": c05, "C06": c06, "C08": c08,
 INFO = {}
 # reasons for properties that are not claimed
 NA = {}
+
+# family modules engine/props_<name>.py may define TABLE / INFO / NA / TRACE_SPEC; they are merged here
+import glob as _glob, importlib as _imp, os as _os
+for _f in sorted(_glob.glob(_os.path.join(_os.path.dirname(__file__), "props_*.py"))):
+    _m = _imp.import_module("engine." + _os.path.basename(_f)[:-3])
+    TABLE.update(getattr(_m, "TABLE", {}))
+    INFO.update(getattr(_m, "INFO", {}))
+    NA.update(getattr(_m, "NA", {}))
